@@ -375,6 +375,8 @@ def check_small_blocks(acc):
 
 
 def VARIANT_PRED(t, v):
+    if v != 'deepcopy':
+        return False
     k = t.get('kind')
     return k == 'blocks' or (k == 'nbits' and t['n'] <= 5) or (k == 'weighted' and t['n'] <= 2) or (k == 'two' and t['na'] + t['nb'] <= 4) or (k == 'pow2' and t['n'] <= 4)
 
